@@ -37,6 +37,7 @@ type c01Desc struct {
 	Seed       uint64   `json:"seed"`
 	WriteMax   int      `json:"transport_write_max"`
 	ReadMax    int      `json:"transport_read_max"`
+	Long       bool     `json:"long_history,omitempty"`
 }
 
 func init() {
@@ -48,7 +49,7 @@ func init() {
 		Gen:         c01Gen,
 		CaseTimeout: 180 * time.Second,
 		Require: func(tier string) map[string]int64 {
-			return map[string]int64{"messages_compared": 3000, "messages_compressed_on_wire": 600, "window_wraps_32k": 40, "messages_over_64k": 20, "writer_messages": 800}
+			return map[string]int64{"messages_compared": 3000, "messages_compressed_on_wire": 600, "window_wraps_32k": 40, "messages_over_64k": 20, "writer_messages": 800, "messages_compared_beyond_the_1000th_of_a_connection": 1000}
 		},
 		Assumptions: []string{
 			"how a message is framed or whether it is compressed is not judged here (C02), only measured",
@@ -64,6 +65,35 @@ func c01Program(rng *fw.Rand, n int, big, huge bool) []c01Msg {
 		if rng.Intn(10) < 6 {
 			m.Writer = true
 			m.Chunk = chunkings[rng.Intn(len(chunkings))]
+			if m.Chunk.Kind == "close-only" {
+				m.Size = 0
+			}
+		}
+		p = append(p, m)
+	}
+	return p
+}
+
+// c01LongProgram is a long history of mostly small messages on ONE connection: it takes the per-connection
+// state (message counters, the write buffer, the flate window, pooled objects taken and returned per message)
+// through thousands of rounds, which the short programs never do.
+func c01LongProgram(rng *fw.Rand, n int) []c01Msg {
+	var p []c01Msg
+	for i := 0; i < n; i++ {
+		m := c01Msg{Text: rng.Bool(), Content: payloadKinds[rng.Intn(len(payloadKinds))]}
+		switch x := rng.Intn(100); {
+		case x < 70:
+			m.Size = rng.Intn(200)
+		case x < 90:
+			m.Size = rng.Intn(3000)
+		case x < 97:
+			m.Size = sizesSmall[rng.Intn(len(sizesSmall))]
+		default:
+			m.Size = 4000 + rng.Intn(200)
+		}
+		if rng.Intn(10) < 3 {
+			m.Writer = true
+			m.Chunk = []chunking{{"one", 0}, {"fixed", 127}, {"random", 0}, {"empty-interleaved", 0}, {"close-only", 0}}[rng.Intn(5)]
 			if m.Chunk.Kind == "close-only" {
 				m.Size = 0
 			}
@@ -99,6 +129,26 @@ func c01Gen(tier string, seed int64) []fw.Case {
 					dd := d
 					cases = append(cases, fw.Case{Name: fmt.Sprintf("cm=%d/sm=%d/thr=%d/%d+%d msgs", cm, sm, thr, len(d.C2S), len(d.S2C)), Desc: dd, Run: func(r *fw.R) { c01Run(r, dd) }})
 				}
+			}
+		}
+	}
+	// long histories on one connection: one per mode pair (thorough: five)
+	for rep := 0; rep < tierPick(tier, 1, 5); rep++ {
+		for cm := 0; cm < 3; cm++ {
+			for sm := 0; sm < 3; sm++ {
+				d := c01Desc{ClientMode: cm, ServerMode: sm, Threshold: []int{0, 1, 100}[rng.Intn(3)], Seed: rng.U64(), Long: true}
+				d.C2S = c01LongProgram(rng, 1200+rng.Intn(1200))
+				d.S2C = c01LongProgram(rng, 1200+rng.Intn(1200))
+				d.CReader = readModes[rng.Intn(len(readModes))]
+				d.SReader = readModes[rng.Intn(len(readModes))]
+				if d.CReader.Kind != "Read" && d.CReader.Buf < 64 {
+					d.CReader = readMode{Kind: "Read"}
+				}
+				if d.SReader.Kind != "Read" && d.SReader.Buf < 64 {
+					d.SReader = readMode{Kind: "Read"}
+				}
+				dd := d
+				cases = append(cases, fw.Case{Name: fmt.Sprintf("long/cm=%d/sm=%d/thr=%d/%d+%d msgs", cm, sm, d.Threshold, len(d.C2S), len(d.S2C)), Desc: dd, Run: func(r *fw.R) { c01Run(r, dd) }})
 			}
 		}
 	}
@@ -256,6 +306,9 @@ func c01Run(r *fw.R, d c01Desc) {
 					return
 				}
 				r.Count("messages_compared", 1)
+				if d.Long && i >= 1000 {
+					r.Count("messages_compared_beyond_the_1000th_of_a_connection", 1)
+				}
 				if mode.Kind == "Read" && len(kept) == i {
 					kept = append(kept, got)
 				}
